@@ -398,6 +398,25 @@ def run_case(c):
         for i, fn in enumerate(files):
             vasprun(os.path.join(tmp, "vasprun-%03d.xml" % (i + 1)), read_vasp(os.path.join(tmp, fn)), F[i])
             vfiles.append("vasprun-%03d.xml" % (i + 1))
+        # ---- step 2a: --fz (residual forces of the perfect supercell subtracted): FORCE_SETS must hold F_i - F_0
+        if os.path.exists(os.path.join(tmp, "SPOSCAR")):
+            R0 = 0.05 * rng.standard_normal((len(sc), 3))
+            R0 -= R0.mean(axis=0)
+            vasprun(os.path.join(tmp, "vasprun-000.xml"), read_vasp(os.path.join(tmp, "SPOSCAR")), R0)
+            rfiles = []
+            for i, fn in enumerate(files):
+                vasprun(os.path.join(tmp, "vasprun-r%03d.xml" % (i + 1)), read_vasp(os.path.join(tmp, fn)), F[i] + R0)
+                rfiles.append("vasprun-r%03d.xml" % (i + 1))
+            if cli("phonopy", ["--fz", "vasprun-000.xml"] + rfiles, "forces-fz") is not None and os.path.exists(os.path.join(tmp, "FORCE_SETS")):
+                fsz = parse_FORCE_SETS(filename=os.path.join(tmp, "FORCE_SETS"))
+                gotz = np.array([d["forces"] for d in fsz["first_atoms"]])
+                n_files += 1
+                # (both inputs are printed with 12 decimals, the difference with 10)
+                if gotz.shape != F.shape or np.abs(gotz - F).max() > 0.6e-10 + 2e-12:
+                    bad("force_sets_file", "FORCE_SETS written by `phonopy --fz` differs from (forces - residual forces of the perfect supercell) by %.3e" % (
+                        np.abs(gotz - F).max() if gotz.shape == F.shape else np.inf), step="forces-fz", **feat)
+                keys.append("wf|%s|forces-fz" % c["crystal"]["name"])
+                os.remove(os.path.join(tmp, "FORCE_SETS"))
         if cli("phonopy", ["-f"] + vfiles, "forces") is None:
             return {"viol": viol, "nontrivial": bool(keys), "keys": keys, "obs": obs}
         fs = parse_FORCE_SETS(filename=os.path.join(tmp, "FORCE_SETS"))
